@@ -11,6 +11,8 @@ namespace verif
             return new StackSubj<src_fixed>(where, src, bs);
         if (s == "static")
             return new StackSubj<src_static>(where, src, bs);
+        if (s == "virtual")
+            return new StackSubj<src_virtual>(where, src, bs);
         return nullptr;
     }
 
